@@ -485,8 +485,21 @@ func (e *Exec) applyContract(st *State, spec *FuncSpec, sig *types.Signature, pa
 		if e.tryMacroEquation(st, old, en, vars, short) {
 			continue
 		}
-		t := e.evalSpecBool(en, vars, st, old, "ensures of "+short)
-		e.assume(st, t)
+		// a postcondition of the callee that cannot be evaluated in this
+		// caller state is not assumed (sound: less is known) and noted
+		func() {
+			defer func() {
+				if r := recover(); r != nil {
+					se, ok := r.(specError)
+					if !ok {
+						panic(r)
+					}
+					e.note("postcondition [%s] of %s not assumed at a call: %s", clauseLabel(en), short, se.msg)
+				}
+			}()
+			t := e.evalSpecBool(en, vars, st, old, "ensures of "+short)
+			e.assume(st, t)
+		}()
 	}
 	// ghost clocks and ghost updates of the callee
 	for _, g := range spec.Advances {
